@@ -1,9 +1,1444 @@
 package rules
 
 import (
+	"fmt"
+	"go/ast"
+	"go/constant"
+	"go/token"
+	"go/types"
+	"os"
+	"sort"
+	"strings"
+	"time"
+
+	"golang.org/x/tools/go/ssa"
+
 	"verif/internal/core"
 )
 
-// crashNil: optional-pointer dereferences (stub, see below).
+// ---- optional-pointer dereference analysis (path-sensitive nil-ness dataflow on go/ssa) -------------
+//
+// Facts are kept per *access path* (p:0.Value.Schema – parameter 0, field Value, field Schema), not per
+// SSA value: go/ssa does not CSE loads, and the document is never written on these paths (C15), so two
+// loads of the same path see the same pointer. A state is a set of fact maps (disjunctive), so that
+// `if a == nil && b == nil { return }; if b != nil {...} else { use a }` is decided.
+
+type nilFact int8
+
+const (
+	factNil nilFact = iota + 1
+	factNonNil
+)
+
+type nilState map[string]nilFact
+
+func (s nilState) key() string {
+	ks := make([]string, 0, len(s))
+	for k, v := range s {
+		ks = append(ks, fmt.Sprintf("%s=%d", k, v))
+	}
+	sort.Strings(ks)
+	return strings.Join(ks, ";")
+}
+
+func (s nilState) clone() nilState {
+	o := make(nilState, len(s)+1)
+	for k, v := range s {
+		o[k] = v
+	}
+	return o
+}
+
+type stateSetN map[string]nilState
+
+func (ss stateSetN) add(s nilState) bool {
+	k := s.key()
+	if _, ok := ss[k]; ok {
+		return false
+	}
+	ss[k] = s
+	return true
+}
+
+// nilReq: function fn dereferences (parameter idx | free variable -1-idx) + rel without a proof.
+type nilReq struct {
+	idx  int    // >=0 parameter index; <0 free variable -1-idx
+	rel  string // relative access path ("" = the parameter itself, ".Value.Schema")
+	last lastStep
+	site token.Pos
+	fn   *ssa.Function
+	via  string
+	// origin: the dereference this requirement stems from (reported there, once)
+	oKey, oPos, oDetail string
+}
+
+// lastStep describes how the dereferenced pointer was produced.
+type lastStep struct {
+	kind  string // "param", "field", "lookup", "call", "assert", "phi", "range", "alloc", "const-nil", "other"
+	owner string // for field: struct name
+	field string
+	model bool // field of a document-model struct
+	desc  string
+}
+
+type nilAnalyzer struct {
+	p          *core.Prog
+	cs         *crashScope
+	model      map[*types.Named]bool
+	axioms     map[string]string // "Owner.Field" -> reason
+	reqs       map[*ssa.Function][]nilReq
+	na         *core.NilAnalysis
+	nilImpl    map[*ssa.Function]int // +1: true result implies receiver non-nil; -1: false result implies; 0: none
+	niDone     map[*ssa.Function]bool
+	viol       map[string]nilViolation
+	provedKeys map[string]string
+	keyCache   map[ssa.Value]keyInfo
+	edgeCache  map[*ssa.Function]map[ssa.CallInstruction][]*ssa.Function
+	derefs     int
+	proved     int
+	round      int
+}
+
+type nilViolation struct {
+	key, pos, detail string
+}
+
+func newNilAnalyzer(p *core.Prog, cs *crashScope) *nilAnalyzer {
+	a := &nilAnalyzer{p: p, cs: cs, model: map[*types.Named]bool{}, reqs: map[*ssa.Function][]nilReq{}, na: core.NewNilAnalysis(p), nilImpl: map[*ssa.Function]int{}, niDone: map[*ssa.Function]bool{}, viol: map[string]nilViolation{}, keyCache: map[ssa.Value]keyInfo{}, provedKeys: map[string]string{}, edgeCache: map[*ssa.Function]map[ssa.CallInstruction][]*ssa.Function{}}
+	for _, n := range p.ModelTypes("openapi3", "T") {
+		a.model[n] = true
+	}
+	// validated-document axioms: each names the Validate line that rejects nil (checked by C04.descent)
+	a.axioms = map[string]string{
+		"Operation.Responses": "Operation.Validate rejects an operation without responses",
+		"T.Paths":             "T.Validate rejects a document without paths",
+		"T.Info":              "T.Validate rejects a document without info",
+	}
+	return a
+}
+
+func (a *nilAnalyzer) isModel(t types.Type) (*types.Named, bool) {
+	n := core.NamedOf(t)
+	if n == nil {
+		return nil, false
+	}
+	n = n.Origin()
+	return n, a.model[n]
+}
+
+// accessKey computes the access-path key of a pointer-/interface-/func-valued SSA value and how it was
+// produced.
+type keyInfo struct {
+	k  string
+	ls lastStep
+}
+
+func (a *nilAnalyzer) accessKey(v ssa.Value, depth int) (string, lastStep) {
+	if ki, ok := a.keyCache[v]; ok {
+		return ki.k, ki.ls
+	}
+	k, ls := a.accessKey0(v, depth)
+	a.keyCache[v] = keyInfo{k, ls}
+	return k, ls
+}
+
+func (a *nilAnalyzer) accessKey0(v ssa.Value, depth int) (string, lastStep) {
+	if depth > 12 {
+		return fmt.Sprintf("v:%p", v), lastStep{kind: "other"}
+	}
+	switch x := v.(type) {
+	case *ssa.Parameter:
+		for i, q := range x.Parent().Params {
+			if q == x {
+				return fmt.Sprintf("p:%d", i), lastStep{kind: "param", desc: x.Name()}
+			}
+		}
+	case *ssa.FreeVar:
+		for i, q := range x.Parent().FreeVars {
+			if q == x {
+				return fmt.Sprintf("f:%d", i), lastStep{kind: "param", desc: "captured " + x.Name()}
+			}
+		}
+	case *ssa.Const:
+		if x.IsNil() {
+			return "nil", lastStep{kind: "const-nil"}
+		}
+		return fmt.Sprintf("v:%p", v), lastStep{kind: "other"}
+	case *ssa.MakeInterface:
+		return a.accessKey(x.X, depth+1)
+	case *ssa.ChangeType:
+		return a.accessKey(x.X, depth+1)
+	case *ssa.ChangeInterface:
+		return a.accessKey(x.X, depth+1)
+	case *ssa.Alloc:
+		return fmt.Sprintf("&%s@%p", x.Name(), x), lastStep{kind: "alloc"}
+	case *ssa.MakeClosure, *ssa.MakeMap, *ssa.MakeSlice, *ssa.MakeChan, *ssa.Function, *ssa.Global:
+		return fmt.Sprintf("v:%p", v), lastStep{kind: "alloc"}
+	case *ssa.FieldAddr:
+		// address of a (possibly embedded) field: non-nil whenever computed; keyed by path so that
+		// two computations of the same address agree
+		base, _ := a.accessKey(x.X, depth+1)
+		_, fname := fieldNames(x.X.Type(), x.Field)
+		return base + ".&" + fname, lastStep{kind: "alloc"}
+	case *ssa.IndexAddr:
+		return fmt.Sprintf("v:%p", v), lastStep{kind: "alloc"}
+	case *ssa.UnOp:
+		if x.Op != token.MUL {
+			return fmt.Sprintf("v:%p", v), lastStep{kind: "other"}
+		}
+		switch ad := x.X.(type) {
+		case *ssa.FieldAddr:
+			base, _ := a.accessKey(ad.X, depth+1)
+			base = strings.ReplaceAll(base, ".&", ".")
+			owner, fname := fieldNames(ad.X.Type(), ad.Field)
+			_, isM := a.isModel(ad.X.Type())
+			return base + "." + fname, lastStep{kind: "field", owner: owner, field: fname, model: isM, desc: owner + "." + fname}
+		case *ssa.Alloc:
+			// local variable cell
+			return fmt.Sprintf("*%s@%p", ad.Name(), ad), lastStep{kind: "local", desc: ad.Comment}
+		case *ssa.FreeVar:
+			k, _ := a.accessKey(ad, depth+1)
+			return k + "*", lastStep{kind: "local", desc: "captured variable " + ad.Name()}
+		case *ssa.IndexAddr:
+			// element of a slice/array: treated as a range element (entries are non-nil, see axioms)
+			base, _ := a.accessKey(ad.X, depth+1)
+			return base + "[i]@" + x.Name(), lastStep{kind: "range", desc: "slice element"}
+		case *ssa.Global:
+			return "g:" + ad.Name(), lastStep{kind: "other", desc: "global " + ad.Name()}
+		default:
+			base, _ := a.accessKey(ad, depth+1)
+			return base + "*", lastStep{kind: "other"}
+		}
+	case *ssa.Field:
+		// field of a struct value (loaded from a pointer)
+		base := ""
+		if u, ok := x.X.(*ssa.UnOp); ok && u.Op == token.MUL {
+			base, _ = a.accessKey(u.X, depth+1)
+		} else {
+			base, _ = a.accessKey(x.X, depth+1)
+		}
+		owner, fname := fieldNames(x.X.Type(), x.Field)
+		_, isM := a.isModel(x.X.Type())
+		return base + "." + fname, lastStep{kind: "field", owner: owner, field: fname, model: isM, desc: owner + "." + fname}
+	case *ssa.Lookup:
+		base, _ := a.accessKey(x.X, depth+1)
+		k := fmt.Sprintf("%p", x.Index)
+		if c, ok := x.Index.(*ssa.Const); ok && c.Value != nil {
+			k = c.Value.ExactString()
+		} else if kk, _ := a.accessKey(x.Index, depth+1); !strings.HasPrefix(kk, "v:") {
+			k = kk
+		}
+		if x.CommaOk {
+			return base + "[" + k + "],ok", lastStep{kind: "other"}
+		}
+		if a.keyFromSameMap(x) {
+			return base + "[" + k + "]", lastStep{kind: "range", desc: "lookup with a key taken from the same map"}
+		}
+		return base + "[" + k + "]", lastStep{kind: "lookup", desc: "map lookup"}
+	case *ssa.Extract:
+		switch t := x.Tuple.(type) {
+		case *ssa.Lookup:
+			if x.Index == 0 {
+				k, _ := a.accessKey(t, depth+1)
+				return strings.TrimSuffix(k, ",ok"), lastStep{kind: "lookup", desc: "map lookup"}
+			}
+		case *ssa.TypeAssert:
+			if x.Index == 0 {
+				return fmt.Sprintf("ta:%p", t), lastStep{kind: "assert", desc: "comma-ok type assertion"}
+			}
+		case *ssa.Next:
+			return fmt.Sprintf("rng:%p/%d", t, x.Index), lastStep{kind: "range", desc: "range element"}
+		case *ssa.Call:
+			return fmt.Sprintf("call:%p/%d", t, x.Index), a.callStep(t, x.Index)
+		}
+		return fmt.Sprintf("v:%p", v), lastStep{kind: "other"}
+	case *ssa.Call:
+		return fmt.Sprintf("call:%p/0", x), a.callStep(x, 0)
+	case *ssa.TypeAssert:
+		if !x.CommaOk {
+			// a successful single-result assertion to a concrete type yields that value
+			return a.accessKey(x.X, depth+1)
+		}
+	case *ssa.Phi:
+		return fmt.Sprintf("phi:%p", x), lastStep{kind: "phi"}
+	}
+	return fmt.Sprintf("v:%p", v), lastStep{kind: "other"}
+}
+
+// keyFromSameMap: the lookup key is an element of a slice filled only with range keys of the same map
+// (the "collect keys, sort, iterate" idiom): the entry exists.
+func (a *nilAnalyzer) keyFromSameMap(lk *ssa.Lookup) bool {
+	mapKey, _ := a.accessKey(lk.X, 1)
+	var slice ssa.Value
+	switch ix := lk.Index.(type) {
+	case *ssa.UnOp:
+		if ia, ok := ix.X.(*ssa.IndexAddr); ok && ix.Op == token.MUL {
+			slice = ia.X
+		}
+	case *ssa.Extract:
+		if nx, ok := ix.Tuple.(*ssa.Next); ok {
+			if rg, ok := nx.Iter.(*ssa.Range); ok {
+				if ix.Index == 1 {
+					// ranging over the same map directly
+					k, _ := a.accessKey(rg.X, 1)
+					return k == mapKey
+				}
+				slice = rg.X
+			}
+		}
+	}
+	if slice == nil {
+		return false
+	}
+	seen := map[ssa.Value]bool{}
+	found := false
+	ok := true
+	var walk func(v ssa.Value, depth int)
+	walk = func(v ssa.Value, depth int) {
+		if seen[v] || !ok || depth > 10 {
+			return
+		}
+		seen[v] = true
+		switch x := v.(type) {
+		case *ssa.Phi:
+			for _, e := range x.Edges {
+				walk(e, depth+1)
+			}
+		case *ssa.Slice:
+			walk(x.X, depth+1)
+		case *ssa.MakeSlice:
+		case *ssa.Const:
+		case *ssa.Call:
+			b, isB := x.Common().Value.(*ssa.Builtin)
+			if !isB || b.Name() != "append" || len(x.Common().Args) != 2 {
+				ok = false
+				return
+			}
+			walk(x.Common().Args[0], depth+1)
+			// appended elements
+			sl, isS := x.Common().Args[1].(*ssa.Slice)
+			if !isS {
+				ok = false
+				return
+			}
+			al, isA := sl.X.(*ssa.Alloc)
+			if !isA {
+				ok = false
+				return
+			}
+			for _, ref := range *al.Referrers() {
+				ia, isI := ref.(*ssa.IndexAddr)
+				if !isI {
+					continue
+				}
+				for _, r2 := range *ia.Referrers() {
+					st, isSt := r2.(*ssa.Store)
+					if !isSt {
+						continue
+					}
+					ex, isE := st.Val.(*ssa.Extract)
+					if !isE || ex.Index != 1 {
+						ok = false
+						return
+					}
+					nx, isN := ex.Tuple.(*ssa.Next)
+					if !isN {
+						ok = false
+						return
+					}
+					rg, isR := nx.Iter.(*ssa.Range)
+					if !isR {
+						ok = false
+						return
+					}
+					if k, _ := a.accessKey(rg.X, 1); k != mapKey {
+						ok = false
+						return
+					}
+					found = true
+				}
+			}
+		default:
+			ok = false
+		}
+	}
+	walk(slice, 0)
+	return ok && found
+}
+
+func (a *nilAnalyzer) callStep(c *ssa.Call, idx int) lastStep {
+	sc := c.Common().StaticCallee()
+	if sc == nil {
+		return lastStep{kind: "other", desc: "dynamic call result"}
+	}
+	if !core.SSAFuncInRepo(sc) {
+		return lastStep{kind: "other", desc: "library call result"}
+	}
+	if o, ok := sc.Object().(*types.Func); ok && o != nil {
+		if never, _ := a.naResult(o, idx); never {
+			return lastStep{kind: "alloc", desc: "never-nil result of " + sc.Name()}
+		}
+	}
+	return lastStep{kind: "call", desc: "result of " + shortFn(sc)}
+}
+
+func (a *nilAnalyzer) naResult(f *types.Func, idx int) (bool, int) {
+	defer func() { recover() }()
+	return a.na.ResultNeverNil(f, idx)
+}
+
+// calleesOf returns the repo callees of a dynamic call site (cached per function).
+func (a *nilAnalyzer) calleesOf(fn *ssa.Function, site ssa.CallInstruction) []*ssa.Function {
+	m := a.edgeCache[fn]
+	if m == nil {
+		m = map[ssa.CallInstruction][]*ssa.Function{}
+		if n := a.p.CallGraph().Nodes[fn]; n != nil {
+			for _, e := range n.Out {
+				if e.Site != nil {
+					m[e.Site] = append(m[e.Site], e.Callee.Func)
+				}
+			}
+		}
+		a.edgeCache[fn] = m
+	}
+	return m[site]
+}
+
+// optional: does a value produced this way need a proof before it is dereferenced?
+func (a *nilAnalyzer) optional(ls lastStep, ty types.Type) (bool, string) {
+	switch ls.kind {
+	case "field":
+		if !ls.model {
+			return false, ""
+		}
+		if ls.field == "Value" {
+			return false, "" // reference wrappers are resolved in a loaded, validated document
+		}
+		if _, ok := a.axioms[ls.owner+"."+ls.field]; ok {
+			return false, ""
+		}
+		return true, "optional document field " + ls.desc
+	case "lookup":
+		return true, "map lookup (nil when the key is absent)"
+	case "call":
+		return true, ls.desc + " (may be nil)"
+	case "assert":
+		return true, "result of a comma-ok type assertion (zero when it fails)"
+	case "const-nil":
+		return true, "nil"
+	}
+	return false, ""
+}
+
+// nilImplies: for a method with a pointer receiver returning bool, which result value implies a
+// non-nil receiver (decided by evaluating the body under `receiver == nil`).
+func (a *nilAnalyzer) nilImplies(fn *ssa.Function) int {
+	if a.niDone[fn] {
+		return a.nilImpl[fn]
+	}
+	a.niDone[fn] = true
+	if fn.Blocks == nil || len(fn.Params) == 0 || fn.Signature.Recv() == nil {
+		return 0
+	}
+	if _, isPtr := fn.Params[0].Type().Underlying().(*types.Pointer); !isPtr {
+		return 0
+	}
+	res := fn.Signature.Results()
+	if res.Len() != 1 {
+		return 0
+	}
+	if b, ok := res.At(0).Type().Underlying().(*types.Basic); !ok || b.Kind() != types.Bool {
+		return 0
+	}
+	recv := fn.Params[0]
+	// walk from entry assuming recv == nil
+	var results []string
+	seen := map[*ssa.BasicBlock]bool{}
+	okAll := true
+	var walk func(b, from *ssa.BasicBlock)
+	walk = func(b, from *ssa.BasicBlock) {
+		if seen[b] || !okAll {
+			return
+		}
+		seen[b] = true
+		for _, in := range b.Instrs {
+			switch x := in.(type) {
+			case *ssa.FieldAddr:
+				if x.X == ssa.Value(recv) {
+					okAll = false
+				}
+			case *ssa.UnOp:
+				if x.Op == token.MUL && x.X == ssa.Value(recv) {
+					okAll = false
+				}
+			case *ssa.Return:
+				r := x.Results[0]
+				if ph, ok := r.(*ssa.Phi); ok && from != nil {
+					for i, pr := range b.Preds {
+						if pr == from {
+							r = ph.Edges[i]
+						}
+					}
+				}
+				if c, ok := r.(*ssa.Const); ok && c.Value != nil && c.Value.Kind() == constant.Bool {
+					results = append(results, c.Value.String())
+				} else if call, ok := r.(*ssa.Call); ok {
+					// `return types.Includes(typ)` with the same nil receiver
+					if sc := call.Common().StaticCallee(); sc != nil && len(call.Common().Args) > 0 && call.Common().Args[0] == ssa.Value(recv) {
+						switch a.nilImplies(sc) {
+						case 1:
+							results = append(results, "false")
+						case -1:
+							results = append(results, "true")
+						default:
+							okAll = false
+						}
+					} else {
+						okAll = false
+					}
+				} else {
+					okAll = false
+				}
+			case *ssa.If:
+				// branch on recv ==/!= nil
+				if bo, ok := x.Cond.(*ssa.BinOp); ok && (bo.Op == token.EQL || bo.Op == token.NEQ) {
+					var other ssa.Value
+					if bo.X == ssa.Value(recv) {
+						other = bo.Y
+					} else if bo.Y == ssa.Value(recv) {
+						other = bo.X
+					}
+					if c, ok := other.(*ssa.Const); ok && c.IsNil() {
+						if bo.Op == token.EQL {
+							walk(b.Succs[0], b)
+						} else {
+							walk(b.Succs[1], b)
+						}
+						return
+					}
+				}
+				walk(b.Succs[0], b)
+				walk(b.Succs[1], b)
+				return
+			case *ssa.Jump:
+				walk(b.Succs[0], b)
+				return
+			}
+		}
+	}
+	walk(fn.Blocks[0], nil)
+	if !okAll || len(results) == 0 {
+		return 0
+	}
+	for _, r := range results {
+		if r != results[0] {
+			return 0
+		}
+	}
+	if results[0] == "false" {
+		a.nilImpl[fn] = 1
+	} else {
+		a.nilImpl[fn] = -1
+	}
+	return a.nilImpl[fn]
+}
+
+// nilOnlyWithError: in every return of fn, result j is non-nil or result errIdx (an error) is non-nil.
+func (a *nilAnalyzer) nilOnlyWithError(fn *ssa.Function, j, errIdx int) bool {
+	if fn.Blocks == nil {
+		return false
+	}
+	n := 0
+	for _, b := range fn.Blocks {
+		ret, ok := b.Instrs[len(b.Instrs)-1].(*ssa.Return)
+		if !ok {
+			continue
+		}
+		n++
+		if j >= len(ret.Results) || errIdx >= len(ret.Results) {
+			return false
+		}
+		nonNil := func(v ssa.Value) bool {
+			switch x := v.(type) {
+			case *ssa.Alloc, *ssa.MakeInterface, *ssa.MakeMap, *ssa.MakeSlice, *ssa.MakeClosure:
+				if mi, ok := x.(*ssa.MakeInterface); ok {
+					if c, ok := mi.X.(*ssa.Const); ok && c.IsNil() {
+						return false
+					}
+				}
+				return true
+			case *ssa.Call:
+				if sc := x.Common().StaticCallee(); sc != nil && sc.Pkg != nil {
+					s := sc.String()
+					return s == "fmt.Errorf" || s == "errors.New"
+				}
+			}
+			return false
+		}
+		if !nonNil(ret.Results[j]) && !nonNil(ret.Results[errIdx]) {
+			return false
+		}
+	}
+	return n > 0
+}
+
+// condFacts: facts implied by a branch condition being true (sense=true) or false.
+func (a *nilAnalyzer) condFacts(c ssa.Value, sense bool, out map[string]nilFact) {
+	switch x := c.(type) {
+	case *ssa.UnOp:
+		if x.Op == token.NOT {
+			a.condFacts(x.X, !sense, out)
+		}
+	case *ssa.BinOp:
+		if x.Op != token.EQL && x.Op != token.NEQ {
+			return
+		}
+		var v ssa.Value
+		if cc, ok := x.Y.(*ssa.Const); ok && cc.IsNil() {
+			v = x.X
+		} else if cc, ok := x.X.(*ssa.Const); ok && cc.IsNil() {
+			v = x.Y
+		} else {
+			return
+		}
+		k, _ := a.accessKey(v, 0)
+		isNil := (x.Op == token.EQL) == sense
+		if isNil {
+			out[k] = factNil
+		} else {
+			out[k] = factNonNil
+		}
+		// `v, err := f(); err == nil`: the other results of a function that returns nil only
+		// together with an error are non-nil
+		if ex, ok := v.(*ssa.Extract); ok && isNil {
+			if call, ok := ex.Tuple.(*ssa.Call); ok {
+				if sc := call.Common().StaticCallee(); sc != nil && core.SSAFuncInRepo(sc) {
+					for j := 0; j < sc.Signature.Results().Len(); j++ {
+						if j != ex.Index && a.nilOnlyWithError(sc, j, ex.Index) {
+							out[fmt.Sprintf("call:%p/%d", call, j)] = factNonNil
+						}
+					}
+				}
+			}
+		}
+		// an interface built from a pointer: same key already (MakeInterface stripped)
+	case *ssa.Extract:
+		// ok of a comma-ok lookup / assertion
+		if x.Index == 1 && sense {
+			switch t := x.Tuple.(type) {
+			case *ssa.Lookup:
+				k, _ := a.accessKey(t, 0)
+				out[strings.TrimSuffix(k, ",ok")] = factNonNil
+			case *ssa.TypeAssert:
+				out[fmt.Sprintf("ta:%p", t)] = factNonNil
+			}
+		}
+	case *ssa.Call:
+		sc := x.Common().StaticCallee()
+		if sc == nil || len(x.Common().Args) == 0 {
+			return
+		}
+		ni := a.nilImplies(sc)
+		if (ni == 1 && sense) || (ni == -1 && !sense) {
+			k, _ := a.accessKey(x.Common().Args[0], 0)
+			out[k] = factNonNil
+		}
+		// validated-document axiom: a schema whose type is/includes "array" has items
+		// (Schema.validate: "when schema type is 'array', schema 'items' must be non-null")
+		if sense && (sc.Name() == "Is" || sc.Name() == "Includes") && len(x.Common().Args) == 2 {
+			if c, ok := x.Common().Args[1].(*ssa.Const); ok && c.Value != nil && c.Value.Kind() == constant.String && constant.StringVal(c.Value) == "array" {
+				k, _ := a.accessKey(x.Common().Args[0], 0)
+				if strings.HasSuffix(k, ".Type") {
+					out[strings.TrimSuffix(k, ".Type")+".Items"] = factNonNil
+				}
+			}
+		}
+	case *ssa.Phi:
+		// short-circuit results materialised as phi of constants and conditions are not refined
+	}
+}
+
+const maxNilStates = 24
+
+type fnNil struct {
+	a        *nilAnalyzer
+	fn       *ssa.Function
+	in       map[*ssa.BasicBlock]stateSetN
+	reqs     []nilReq
+	interest map[string]bool          // keys facts are kept for
+	widened  map[*ssa.BasicBlock]bool // blocks collapsed to a single (intersection) state
+}
+
+// collectInterest: keys that are tested by some branch, or whose dereference needs a proof.
+func (fa *fnNil) collectInterest() {
+	a := fa.a
+	fa.interest = map[string]bool{}
+	addNeed := func(v ssa.Value, rel string, last *lastStep) {
+		k, ls := a.accessKey(v, 0)
+		if rel != "" {
+			k += rel
+			ls = *last
+		}
+		opt, _ := a.optional(ls, nil)
+		root, _ := splitRoot(k)
+		if opt || ls.kind == "param" || ls.kind == "phi" || ls.kind == "local" || strings.HasPrefix(root, "p:") || strings.HasPrefix(root, "f:") {
+			fa.interest[k] = true
+		}
+	}
+	for _, b := range fa.fn.Blocks {
+		for _, in := range b.Instrs {
+			switch x := in.(type) {
+			case *ssa.If:
+				t := map[string]nilFact{}
+				a.condFacts(x.Cond, true, t)
+				a.condFacts(x.Cond, false, t)
+				for k := range t {
+					fa.interest[k] = true
+				}
+			case *ssa.FieldAddr:
+				addNeed(x.X, "", nil)
+			case *ssa.UnOp:
+				if x.Op == token.MUL {
+					addNeed(x.X, "", nil)
+				}
+			case *ssa.Phi:
+				fa.interest[fmt.Sprintf("phi:%p", x)] = true
+				fa.interest[fmt.Sprintf("phi:%p#src", x)] = true
+				for _, e := range x.Edges {
+					k, _ := a.accessKey(e, 0)
+					fa.interest[k] = true
+				}
+			case *ssa.Store:
+				if al, ok := x.Addr.(*ssa.Alloc); ok {
+					fa.interest[fmt.Sprintf("*%s@%p", al.Name(), al)] = true
+					k, _ := a.accessKey(x.Val, 0)
+					fa.interest[k] = true
+				}
+			case *ssa.MakeClosure:
+				cf := x.Fn.(*ssa.Function)
+				for _, rq := range a.reqs[cf] {
+					if rq.idx < 0 && -1-rq.idx < len(x.Bindings) {
+						last := rq.last
+						bnd := x.Bindings[-1-rq.idx]
+						if al, ok := bnd.(*ssa.Alloc); ok {
+							fa.interest[fmt.Sprintf("*%s@%p", al.Name(), al)+strings.TrimPrefix(rq.rel, "*")] = true
+						} else {
+							addNeed(bnd, rq.rel, &last)
+						}
+					}
+				}
+			case ssa.CallInstruction:
+				c := x.Common()
+				if c.IsInvoke() {
+					addNeed(c.Value, "", nil)
+				} else if c.StaticCallee() == nil {
+					addNeed(c.Value, "", nil)
+				}
+				var callees []*ssa.Function
+				if sc := c.StaticCallee(); sc != nil {
+					callees = []*ssa.Function{sc}
+				} else {
+					callees = a.calleesOf(fa.fn, x)
+				}
+				var args []ssa.Value
+				if c.IsInvoke() {
+					args = append(args, c.Value)
+				}
+				args = append(args, c.Args...)
+				for _, callee := range callees {
+					for _, rq := range a.reqs[callee] {
+						if rq.idx >= 0 && rq.idx < len(args) {
+							last := rq.last
+							addNeed(args[rq.idx], rq.rel, &last)
+						}
+					}
+				}
+			}
+		}
+	}
+	delete(fa.interest, "nil")
+}
+
+func (fa *fnNil) restrict(s nilState) nilState {
+	for k := range s {
+		if !fa.interest[k] {
+			o := nilState{}
+			for k2, v := range s {
+				if fa.interest[k2] {
+					o[k2] = v
+				}
+			}
+			return o
+		}
+	}
+	return s
+}
+
+func applyFacts(s nilState, facts map[string]nilFact) (nilState, bool) {
+	for k, f := range facts {
+		if k == "nil" {
+			if f == factNonNil {
+				return nil, false
+			}
+			continue
+		}
+		if old, ok := s[k]; ok && old != f {
+			return nil, false // infeasible
+		}
+	}
+	o := s.clone()
+	for k, f := range facts {
+		if k != "nil" {
+			o[k] = f
+		}
+	}
+	return o, true
+}
+
+func (a *nilAnalyzer) analyze(fn *ssa.Function) {
+	fa := &fnNil{a: a, fn: fn, in: map[*ssa.BasicBlock]stateSetN{}, widened: map[*ssa.BasicBlock]bool{}}
+	if len(fn.Blocks) == 0 {
+		return
+	}
+	fa.collectInterest()
+	fa.in[fn.Blocks[0]] = stateSetN{}
+	fa.in[fn.Blocks[0]].add(nilState{})
+	work := []*ssa.BasicBlock{fn.Blocks[0]}
+	queued := map[*ssa.BasicBlock]bool{fn.Blocks[0]: true}
+	iter := 0
+	for len(work) > 0 && iter < 20000 {
+		iter++
+		b := work[0]
+		work = work[1:]
+		queued[b] = false
+		outs := fa.flowBlock(b, false)
+		for i, succ := range b.Succs {
+			changed := false
+			if fa.in[succ] == nil {
+				fa.in[succ] = stateSetN{}
+			}
+			for _, s := range outs[i] {
+				s2 := fa.restrict(fa.phiFacts(b, succ, s))
+				if fa.widened[succ] {
+					// single intersection state: facts can only be lost, so this terminates
+					var old nilState
+					for _, o := range fa.in[succ] {
+						old = o
+					}
+					merged := old.clone()
+					for k, v := range merged {
+						if s2[k] != v {
+							delete(merged, k)
+						}
+					}
+					if len(merged) != len(old) {
+						fa.in[succ] = stateSetN{}
+						fa.in[succ].add(merged)
+						changed = true
+					}
+					continue
+				}
+				if fa.in[succ].add(s2) {
+					changed = true
+					if len(fa.in[succ]) > maxNilStates {
+						merged := fa.mergeAll(fa.in[succ], s2)
+						fa.in[succ] = stateSetN{}
+						fa.in[succ].add(merged)
+						fa.widened[succ] = true
+					}
+				}
+			}
+			if changed && !queued[succ] {
+				queued[succ] = true
+				work = append(work, succ)
+			}
+		}
+	}
+	// reporting pass
+	for _, b := range fn.Blocks {
+		if fa.in[b] != nil {
+			fa.flowBlock(b, true)
+		}
+	}
+	a.reqs[fn] = fa.reqs
+}
+
+func (fa *fnNil) mergeAll(ss stateSetN, extra nilState) nilState {
+	var out nilState
+	first := true
+	consider := func(s nilState) {
+		if first {
+			out = s.clone()
+			first = false
+			return
+		}
+		for k, v := range out {
+			if s[k] != v {
+				delete(out, k)
+			}
+		}
+	}
+	for _, s := range ss {
+		consider(s)
+	}
+	consider(extra)
+	return out
+}
+
+// phiFacts: moving along edge b->succ, give the phis of succ the facts of their incoming values.
+func (fa *fnNil) phiFacts(b, succ *ssa.BasicBlock, s nilState) nilState {
+	idx := -1
+	for i, p := range succ.Preds {
+		if p == b {
+			idx = i
+		}
+	}
+	if idx < 0 {
+		return s
+	}
+	var o nilState
+	for _, in := range succ.Instrs {
+		ph, ok := in.(*ssa.Phi)
+		if !ok {
+			break
+		}
+		pk := fmt.Sprintf("phi:%p", ph)
+		e := ph.Edges[idx]
+		ek, ls := fa.a.accessKey(e, 0)
+		var f nilFact
+		if ek == "nil" {
+			f = factNil
+		} else if v, ok := s[ek]; ok {
+			f = v
+		} else if opt, _ := fa.a.optional(ls, e.Type()); !opt && ls.kind != "param" && ls.kind != "phi" && ls.kind != "other" && ls.kind != "local" {
+			f = factNonNil
+		}
+		if o == nil {
+			o = s.clone()
+		}
+		if f != 0 {
+			o[pk] = f
+		} else {
+			delete(o, pk)
+		}
+		if _, isFn := ph.Type().Underlying().(*types.Signature); isFn {
+			// which edge the function value came from (selects the callee per state)
+			o[pk+"#src"] = nilFact(10 + idx)
+		}
+	}
+	if o == nil {
+		return s
+	}
+	return o
+}
+
+// flowBlock pushes the in-states of b through its instructions; returns, per successor, the states
+// leaving on that edge. With report=true dereferences are checked.
+func (fa *fnNil) flowBlock(b *ssa.BasicBlock, report bool) [][]nilState {
+	a := fa.a
+	var cur []nilState
+	for _, s := range fa.in[b] {
+		cur = append(cur, s)
+	}
+	sort.Slice(cur, func(i, j int) bool { return cur[i].key() < cur[j].key() })
+	var origin *nilReq
+	need := func(v ssa.Value, in ssa.Instruction, what string, rel string, relLast *lastStep) {
+		k, ls := a.accessKey(v, 0)
+		if rel != "" {
+			k += rel
+			ls = *relLast
+		}
+		if report {
+			fa.checkKey(k, ls, in, what, cur, origin)
+		}
+		// after the dereference the pointer is non-nil on every continuing path
+		for i := range cur {
+			if !fa.interest[k] {
+				break
+			}
+			if cur[i][k] != factNonNil {
+				n := cur[i].clone()
+				n[k] = factNonNil
+				cur[i] = n
+			}
+		}
+	}
+	for _, in := range b.Instrs {
+		switch x := in.(type) {
+		case *ssa.FieldAddr:
+			need(x.X, in, "field access ."+fieldNameOnly(x.X.Type(), x.Field), "", nil)
+		case *ssa.UnOp:
+			if x.Op == token.MUL {
+				switch x.X.(type) {
+				case *ssa.FieldAddr, *ssa.IndexAddr, *ssa.Alloc, *ssa.Global, *ssa.FreeVar:
+				default:
+					need(x.X, in, "dereference *", "", nil)
+				}
+			}
+		case *ssa.Store:
+			if al, ok := x.Addr.(*ssa.Alloc); ok {
+				key := fmt.Sprintf("*%s@%p", al.Name(), al)
+				vk, vls := a.accessKey(x.Val, 0)
+				for i := range cur {
+					n := cur[i].clone()
+					for k := range n {
+						if k == key || strings.HasPrefix(k, key+".") || strings.HasPrefix(k, key+"[") {
+							delete(n, k)
+						}
+					}
+					if vk == "nil" {
+						n[key] = factNil
+					} else if f, ok := n[vk]; ok {
+						n[key] = f
+					} else if opt, _ := a.optional(vls, x.Val.Type()); !opt && (vls.kind == "alloc" || vls.kind == "range") {
+						n[key] = factNonNil
+					}
+					cur[i] = n
+				}
+			}
+		case ssa.CallInstruction:
+			c := x.Common()
+			if c.IsInvoke() {
+				need(c.Value, in, "method call ."+c.Method.Name()+"() on an interface", "", nil)
+			} else if c.StaticCallee() == nil {
+				if _, isB := c.Value.(*ssa.Builtin); !isB {
+					if _, isMC := c.Value.(*ssa.MakeClosure); !isMC {
+						need(c.Value, in, "call of a function value", "", nil)
+					}
+				}
+			}
+			// requirements of the callees
+			var callees []*ssa.Function
+			if sc := c.StaticCallee(); sc != nil {
+				callees = []*ssa.Function{sc}
+			} else {
+				callees = a.calleesOf(fa.fn, x)
+			}
+			var args []ssa.Value
+			if c.IsInvoke() {
+				args = append(args, c.Value)
+			}
+			args = append(args, c.Args...)
+			var phiSel *ssa.Phi
+			if ph, ok := c.Value.(*ssa.Phi); ok && !c.IsInvoke() {
+				phiSel = ph
+			}
+			for _, callee := range callees {
+				// states in which this callee is the one selected
+				saved := cur
+				if phiSel != nil {
+					srcKey := fmt.Sprintf("phi:%p#src", phiSel)
+					var sel []nilState
+					for _, st := range cur {
+						f, has := st[srcKey]
+						if !has {
+							sel = append(sel, st)
+							continue
+						}
+						e := phiSel.Edges[int(f)-10]
+						if mc, ok := e.(*ssa.MakeClosure); ok && mc.Fn == ssa.Value(callee) {
+							sel = append(sel, st)
+						} else if fv, ok := e.(*ssa.Function); ok && fv == callee {
+							sel = append(sel, st)
+						} else if _, isMC := e.(*ssa.MakeClosure); !isMC {
+							if _, isF := e.(*ssa.Function); !isF {
+								sel = append(sel, st) // not a literal function value: cannot discriminate
+							}
+						}
+					}
+					cur = sel
+				}
+				for _, rq := range a.reqs[callee] {
+					if rq.idx < 0 || rq.idx >= len(args) {
+						continue
+					}
+					arg := args[rq.idx]
+					if mc, ok := c.Value.(*ssa.MakeClosure); ok && callee == mc.Fn {
+						_ = mc
+					}
+					last := rq.last
+					what := fmt.Sprintf("argument %d of %s, which dereferences it%s", rq.idx, shortFn(callee), relDesc(rq.rel))
+					rqc := rq
+					origin = &rqc
+					if rq.rel == "" {
+						need(arg, in, what, "", nil)
+					} else {
+						need(arg, in, what, rq.rel, &last)
+					}
+					origin = nil
+				}
+				if phiSel != nil {
+					// facts learnt inside the selection are dropped; restore the full state list
+					cur = saved
+				}
+			}
+			// closures created here: requirements on captured values
+			if mc, ok := in.(*ssa.MakeClosure); ok {
+				_ = mc
+			}
+		case *ssa.MakeClosure:
+			cf := x.Fn.(*ssa.Function)
+			for _, rq := range a.reqs[cf] {
+				if rq.idx >= 0 {
+					continue
+				}
+				j := -1 - rq.idx
+				if j >= len(x.Bindings) {
+					continue
+				}
+				bnd := x.Bindings[j]
+				last := rq.last
+				what := fmt.Sprintf("value captured by %s, which dereferences it%s", shortFn(cf), relDesc(rq.rel))
+				rel := rq.rel
+				if al, ok := bnd.(*ssa.Alloc); ok {
+					// captured variable cell: the closure's "f:j*" is this function's "*name@alloc"
+					k := fmt.Sprintf("*%s@%p", al.Name(), al) + strings.TrimPrefix(rel, "*")
+					if report {
+						ls := last
+						if rel == "*" {
+							ls = lastStep{kind: "local"}
+						}
+						rqc := rq
+						fa.checkKey(k, ls, in, what, cur, &rqc)
+					}
+					continue
+				}
+				rqc := rq
+				origin = &rqc
+				if rel == "" {
+					need(bnd, in, what, "", nil)
+				} else {
+					need(bnd, in, what, rel, &last)
+				}
+				origin = nil
+			}
+		}
+	}
+	// successors
+	outs := make([][]nilState, len(b.Succs))
+	if len(b.Succs) == 2 {
+		ifi := b.Instrs[len(b.Instrs)-1].(*ssa.If)
+		tf, ff := map[string]nilFact{}, map[string]nilFact{}
+		a.condFacts(ifi.Cond, true, tf)
+		a.condFacts(ifi.Cond, false, ff)
+		for _, s := range cur {
+			if s2, ok := applyFacts(s, tf); ok {
+				outs[0] = append(outs[0], s2)
+			}
+			if s2, ok := applyFacts(s, ff); ok {
+				outs[1] = append(outs[1], s2)
+			}
+		}
+	} else if len(b.Succs) == 1 {
+		outs[0] = cur
+	}
+	return outs
+}
+
+func relDesc(rel string) string {
+	if rel == "" {
+		return ""
+	}
+	return " (its " + strings.TrimPrefix(rel, ".") + ")"
+}
+
+func fieldNameOnly(t types.Type, idx int) string {
+	_, f := fieldNames(t, idx)
+	return f
+}
+
+func (fa *fnNil) checkKey(k string, ls lastStep, in ssa.Instruction, what string, cur []nilState, origin *nilReq) {
+	a := fa.a
+	if len(cur) == 0 {
+		return // unreachable
+	}
+	proven := true
+	for _, s := range cur {
+		if s[k] != factNonNil {
+			proven = false
+		}
+	}
+	opt, why := a.optional(ls, nil)
+	if !opt && ls.kind != "param" {
+		return
+	}
+	if opt {
+		if reason := a.excused(fa.fn, ls); reason != "" {
+			if origin == nil {
+				a.derefs++
+				a.proved++
+			}
+			return
+		}
+	}
+	pos := in.Pos()
+	if !pos.IsValid() {
+		pos = fa.fn.Pos()
+	}
+	// where the violation is reported: at the original dereference
+	oKey := fmt.Sprintf("nil:%s/%s", shortFn(fa.fn), prettyKey(fa.fn, k))
+	oPos := a.p.Pos(pos)
+	oDetail := fmt.Sprintf("%s on %s without a nil guard on this path (%s)", what, prettyKey(fa.fn, k), why)
+	if origin != nil && origin.oKey != "" {
+		oKey, oPos, oDetail = origin.oKey, origin.oPos, origin.oDetail
+	}
+	if origin == nil && opt {
+		a.derefs++
+		if proven {
+			a.proved++
+			a.provedKeys[oKey] = oPos
+		}
+	}
+	if proven {
+		return
+	}
+	root, rel := splitRoot(k)
+	if strings.HasPrefix(root, "p:") || strings.HasPrefix(root, "f:") {
+		idx := 0
+		fmt.Sscanf(root[2:], "%d", &idx)
+		if strings.HasPrefix(root, "f:") {
+			idx = -1 - idx
+		}
+		dup := false
+		for _, q := range fa.reqs {
+			if q.idx == idx && q.rel == rel && q.oKey == oKey {
+				dup = true
+			}
+		}
+		if !dup && strings.Count(rel, ".")+strings.Count(rel, "[") <= 4 && len(fa.reqs) < 400 {
+			rq := nilReq{idx: idx, rel: rel, last: ls, site: in.Pos(), fn: fa.fn, via: what}
+			if opt {
+				rq.oKey, rq.oPos, rq.oDetail = oKey, oPos, oDetail
+			}
+			fa.reqs = append(fa.reqs, rq)
+		}
+		// the callers decide, unless nobody in scope calls this function
+		if !a.isEntry(fa.fn) {
+			return
+		}
+		if !opt {
+			return // a parameter of an entry point: API precondition
+		}
+	}
+	if !opt {
+		// the dereferenced value is not optional here, but a callee requirement with an optional
+		// origin ended on a non-parameter root: fall through only when the origin is optional
+		if origin == nil || origin.oKey == "" {
+			return
+		}
+	}
+	if origin != nil && origin.oKey == "" && !opt {
+		return
+	}
+	chain := ""
+	if origin != nil && origin.oKey != "" {
+		chain = fmt.Sprintf("; not established at the call in %s (%s) either", shortFn(fa.fn), a.p.Pos(pos))
+	}
+	if old, ok := a.viol[oKey]; ok {
+		_ = old
+		return
+	}
+	a.viol[oKey] = nilViolation{key: oKey, pos: oPos, detail: oDetail + chain}
+}
+
+func (a *nilAnalyzer) isEntry(fn *ssa.Function) bool {
+	for _, e := range a.cs.entries {
+		if e == fn {
+			return true
+		}
+	}
+	// no caller inside the scope
+	if n := a.p.CallGraph().Nodes[fn]; n != nil {
+		for _, e := range n.In {
+			if a.cs.reach[e.Caller.Func] {
+				return false
+			}
+		}
+	}
+	return fn.Parent() == nil
+}
+
+func splitRoot(k string) (string, string) {
+	for i := 0; i < len(k); i++ {
+		if k[i] == '.' || k[i] == '[' || k[i] == '*' {
+			return k[:i], k[i:]
+		}
+	}
+	return k, ""
+}
+
+func prettyKey(fn *ssa.Function, k string) string {
+	root, rel := splitRoot(k)
+	idx := 0
+	if strings.HasPrefix(root, "p:") {
+		fmt.Sscanf(root[2:], "%d", &idx)
+		if idx < len(fn.Params) {
+			return fn.Params[idx].Name() + rel
+		}
+	}
+	if strings.HasPrefix(root, "f:") {
+		fmt.Sscanf(root[2:], "%d", &idx)
+		if idx < len(fn.FreeVars) {
+			return fn.FreeVars[idx].Name() + rel
+		}
+	}
+	// strip pointer addresses
+	out := k
+	for {
+		i := strings.Index(out, "@0x")
+		if i < 0 {
+			break
+		}
+		j := i + 3
+		for j < len(out) && strings.ContainsRune("0123456789abcdef", rune(out[j])) {
+			j++
+		}
+		out = out[:i] + out[j:]
+	}
+	for _, pre := range []string{"call:0x", "phi:0x", "ta:0x", "v:0x", "rng:0x"} {
+		if strings.HasPrefix(out, pre) {
+			return strings.TrimSuffix(pre, ":0x") + "-value"
+		}
+	}
+	return out
+}
+
+// excused: frozen exceptions (symbol + producing call), each with a reason that is re-verified on
+// every run; returns "" when no exception applies or its verification fails.
+func (a *nilAnalyzer) excused(fn *ssa.Function, ls lastStep) string {
+	if shortFn(fn) == "(*routers/gorillamux.Router).FindRoute" && ls.kind == "call" && strings.Contains(ls.desc, "(*openapi3.Paths).Value") {
+		if a.gorillaRouteKeysVerified() {
+			return "route.Path is a key of route.Spec.Paths: every Route the router stores is built in NewRouter with Path ranging over doc.Paths.InMatchingOrder() and Spec = doc"
+		}
+	}
+	return ""
+}
+
+// gorillaRouteKeysVerified: in gorillamux.NewRouter every routers.Route literal takes Path from the
+// range variable over doc.Paths.InMatchingOrder() and Spec from the same doc parameter.
+func (a *nilAnalyzer) gorillaRouteKeysVerified() bool {
+	p := a.p
+	fd := p.DeclOf("routers/gorillamux", "NewRouter")
+	info := p.Pkg("routers/gorillamux").TypesInfo
+	ok, n := true, 0
+	docObj := core.ParamObj(info, fd, "doc")
+	ast.Inspect(fd.Body, func(nd ast.Node) bool {
+		cl, isCL := nd.(*ast.CompositeLit)
+		if !isCL {
+			return true
+		}
+		nt := core.NamedOf(info.TypeOf(cl))
+		if nt == nil || nt.Obj().Name() != "Route" {
+			return true
+		}
+		n++
+		var pathE, specE ast.Expr
+		for _, el := range cl.Elts {
+			if kv, isKV := el.(*ast.KeyValueExpr); isKV {
+				if id, isID := kv.Key.(*ast.Ident); isID {
+					switch id.Name {
+					case "Path":
+						pathE = kv.Value
+					case "Spec":
+						specE = kv.Value
+					}
+				}
+			}
+		}
+		sid, _ := specE.(*ast.Ident)
+		if sid == nil || info.ObjectOf(sid) != docObj {
+			ok = false
+		}
+		pid, _ := pathE.(*ast.Ident)
+		if pid == nil {
+			ok = false
+			return true
+		}
+		// pid is the value variable of `for _, path := range doc.Paths.InMatchingOrder()`
+		good := false
+		for _, anc := range core.PathTo(fd.Body, cl) {
+			if rs, isR := anc.(*ast.RangeStmt); isR {
+				if v, isV := rs.Value.(*ast.Ident); isV && info.ObjectOf(v) == info.ObjectOf(pid) {
+					if c, isC := rs.X.(*ast.CallExpr); isC {
+						if callee := core.CalleeOf(info, c); callee != nil && callee.Name() == "InMatchingOrder" {
+							good = true
+						}
+					}
+				}
+			}
+		}
+		if !good {
+			ok = false
+		}
+		return true
+	})
+	return ok && n > 0
+}
+
+// crashNil runs the analysis to a fixpoint over the requirement summaries and reports.
 func crashNil(r *core.Report, cs *crashScope) {
+	p := r.Prog
+	r.RunRule(cs.id+".nil", "optional-pointer dereferences: every dereference (field access, *p, method call on an interface, call of a function value) of a pointer obtained from an optional field of the document model, from a map lookup, from a comma-ok assertion or from a repo function that may return nil is preceded, on every path, by a nil test of the same access path — decided by a path-sensitive nil-ness dataflow on go/ssa with disjunctive states; a function that dereferences a parameter (or a field path below it) without a test passes the obligation to its callers (requirement summaries, fixpoint over the call graph); validated-document axioms: reference wrappers are resolved, Operation.Responses/T.Paths/T.Info are present, a schema whose type includes array has items, slice and range elements are non-nil", 35, func() {
+		a := newNilAnalyzer(p, cs)
+		maxRounds := 8
+		if v := os.Getenv("KINLINT_NILROUNDS"); v != "" {
+			fmt.Sscanf(v, "%d", &maxRounds)
+		}
+		for round := 0; round < maxRounds; round++ {
+			a.round = round
+			before := reqSignature(a.reqs)
+			a.viol = map[string]nilViolation{}
+			a.provedKeys = map[string]string{}
+			a.derefs, a.proved = 0, 0
+			for _, fn := range cs.funcs {
+				t0 := time.Now()
+				a.analyze(fn)
+				if d := time.Since(t0); d > 500*time.Millisecond && os.Getenv("KINLINT_DEBUG") != "" {
+					fmt.Println("SLOW", shortFn(fn), d, len(fn.Blocks))
+				}
+			}
+			if reqSignature(a.reqs) == before {
+				break
+			}
+		}
+		var keys []string
+		for k := range a.viol {
+			keys = append(keys, k)
+		}
+		sort.Strings(keys)
+		for _, k := range keys {
+			v := a.viol[k]
+			r.Bad(v.key, v.pos, v.detail)
+		}
+		var pk []string
+		for k := range a.provedKeys {
+			if _, bad := a.viol[k]; !bad {
+				pk = append(pk, k)
+			}
+		}
+		sort.Strings(pk)
+		for _, k := range pk {
+			r.OK(k, a.provedKeys[k], "optional pointer dereferenced only under a nil guard of the same access path on every path")
+		}
+		r.Extra[cs.id+"_optional_derefs"] = a.derefs
+		r.Extra[cs.id+"_optional_derefs_proved"] = a.proved
+		if os.Getenv("KINLINT_DEBUG") != "" {
+			for fn, rq := range a.reqs {
+				for _, q := range rq {
+					fmt.Println("REQ", shortFn(fn), q.idx, q.rel, q.last.kind)
+				}
+			}
+		}
+	})
+}
+
+func reqSignature(m map[*ssa.Function][]nilReq) string {
+	var parts []string
+	for fn, rs := range m {
+		for _, q := range rs {
+			parts = append(parts, fmt.Sprintf("%s/%d/%s", fn.String(), q.idx, q.rel))
+		}
+	}
+	sort.Strings(parts)
+	return strings.Join(uniq(parts), "|")
 }
